@@ -188,7 +188,9 @@ GOTRANS = {"gocircuit": "GoCircuit", "gohopener": "GoHOpener", "gohcloser": "GoH
            "gorollingbuckets": "GoRollingBuckets", "gorollingcounter": "GoRollingCounter", "gomanager": "GoManager", "gosorteddurations": "GoSortedDurations",
            "gorollingbucketsp": "GoRollingBucketsP", "gorollingpercentile": "GoRollingPercentile", "godurationsbucket": "GoDurationsBucket",
            "goneveropens": "GoNeverOpens", "gonevercloses": "GoNeverCloses", "gohopenercfg": "GoHOpenerCfg", "gohclosercfg": "GoHCloserCfg", "goslocfg": "GoSloCfg",
-           "gorciclear": "GoRCIClear", "gorciadv": "GoRCIAdv", "gorciops": "GoRCIOps", "gotci": "GoTCI", "gocalli": "GoCallI"}
+           "gorciclear": "GoRCIClear", "gorciadv": "GoRCIAdv", "gorciops": "GoRCIOps", "gotci": "GoTCI", "gocalli": "GoCallI",
+           "goisbadrequest": "GoIsBadRequest", "gocircuiterror": "GoCircuitError", "gosimplebadrequest": "GoSimpleBadRequest",
+           "goatomicboolean": "GoAtomicBoolean", "goatomicint64": "GoAtomicInt64"}
 
 def regenerate(name):
     """re-run an extractor on REPO's working tree and (re)write lean/Generated/<file> if it changed.
